@@ -19,14 +19,15 @@ var verifState struct {
 }
 
 func verifSlot(fast bool, index, typeptr uintptr) {
-	if !fast {
-		return
-	}
 	verifState.mu.Lock()
 	defer verifState.mu.Unlock()
 	if verifState.owners == nil {
 		verifState.owners = map[uintptr]uintptr{}
 		verifState.slots = map[uintptr]uintptr{}
+	}
+	if !fast {
+		verifState.slots[typeptr] = ^uintptr(0)
+		return
 	}
 	verifState.slots[typeptr] = index
 	if owner, ok := verifState.owners[index]; !ok {
@@ -37,7 +38,7 @@ func verifSlot(fast bool, index, typeptr uintptr) {
 	}
 }
 
-// VerifReport returns the problems seen so far and the slot used for each type on the fast path.
+// VerifReport returns the problems seen so far and the slot used for each type (all ones = map path).
 func VerifReport() ([]string, map[uintptr]uintptr) {
 	verifState.mu.Lock()
 	defer verifState.mu.Unlock()
